@@ -76,6 +76,14 @@ var c08Templates = []string{
 	"select ?s, ?o from ?g where { ?s \"p\"@[] ?o } having ?o = @ ;",
 	"select @ from ?g where { ?s \"p\"@[] ?o } ;",
 	"select ?s from @ where { ?s \"p\"@[] ?o } ;",
+	// the hole inside a literal value, one template per literal type and position
+	"insert data into ?g { /u<a> \"p\"@[] \"\x00\"^^type:blob } ;",
+	"insert data into ?g { /u<a> \"p\"@[] \"\x00\"^^type:int64 } ;",
+	"select ?s from ?g where { ?s \"p\"@[] \"\x00\"^^type:bool } ;",
+	"select ?s, ?o from ?g where { ?s \"p\"@[] ?o } having ?o = \"\x00\"^^type:blob ;",
+	"select ?s from ?g where { ?s \"p\"@[] ?o } limit \"\x00\"^^type:int64 ;",
+	"select ?s from ?g where { ?s \"p\"@[\x00] ?o } ;",
+	"select ?s from ?g where { ?s \"p\"@[] ?o } having ?s = /u<\x00> ;",
 }
 
 // C08 (stage 2): a statement template with one hole of up to N symbolic bytes
@@ -96,7 +104,7 @@ func HarnessC08Hole() {
 	tpl := c08Templates[t]
 	text := ""
 	for i := 0; i < len(tpl); i++ {
-		if tpl[i] == '@' && i+1 < len(tpl) && tpl[i+1] == ' ' && (i == 0 || tpl[i-1] == ' ') {
+		if tpl[i] == 0 || (tpl[i] == '@' && i+1 < len(tpl) && tpl[i+1] == ' ' && (i == 0 || tpl[i-1] == ' ')) {
 			text += hole
 		} else {
 			text += string(tpl[i])
